@@ -294,6 +294,7 @@ namespace photon
         }
         void dispose() {
             assert(state == states::DONE);
+            PHOTON_VERIF_LS(LS_TH_DISPOSE, this, &this->lock, 0);
             // `buf` and `stack_size` will always store on register
             // when calling deallocating.
             photon_thread_dealloc(buf, stack_size);
@@ -1848,6 +1849,7 @@ insert_list:
     int mutex::try_lock()
     {
         thread* ptr = nullptr;
+        PHOTON_VERIF_LS(LS_MUTEX_CAS, this, 0, 0);
         bool ret = owner.compare_exchange_strong(ptr, CURRENT,
             std::memory_order_acq_rel, std::memory_order_relaxed);
         return (int)ret - 1;
